@@ -50,6 +50,11 @@ def gen(rng, tier, kinds=None, ints=True, outcomes=('optimal',)):
         for k, row in enumerate(spec['w']):
             need = sum(row[int(i)] for i in spec['lb'])
             spec['cap'][k] = max(spec['cap'][k], need)
+    elif kind == 'ro_as_dro':
+        # an ro spec built as a single-scenario dro model (own sets become forall(list) on dro
+        # robust constraints)
+        spec = R.gen(rng, tier)
+        spec['outcome'] = 'optimal'
     elif kind == 'dro':
         spec = DR.gen(rng, tier)
         spec['outcome'] = 'optimal'
@@ -134,4 +139,6 @@ def build(src, variant=None):
         return D.build(src['spec'], variant)
     if src['kind'] == 'dro':
         return DR.build(src['spec'], variant=variant)
+    if src['kind'] == 'ro_as_dro':
+        return R.build_dro_single(src['spec'], variant)
     return R.build(src['spec'], variant=variant)
